@@ -4,9 +4,11 @@ From AG Require Import Str Ops Filter Pipeline Str_proofs Match_proofs Ops_proof
 Import ListNotations.
 Open Scope N_scope.
 
-(** a line reaches the operators iff it satisfies the filter; order kept, nothing else changes *)
+(** a line reaches the operators iff it satisfies the filter; order kept, nothing else changes.
+    The filter is tested on the line without its line terminator ([chomp]). *)
 Theorem C02_pass_iff_match : forall f stages lines,
-  run_pipeline f stages lines = run_pipeline (fun _ => true) stages (List.filter f lines).
+  run_pipeline f stages lines =
+  run_pipeline (fun _ => true) stages (List.filter (fun l => f (chomp l)) lines).
 Proof. exact run_pipeline_filter. Qed.
 Print Assumptions C02_pass_iff_match.
 
@@ -22,24 +24,25 @@ Qed.
 Print Assumptions C02_boolean.
 
 (** a quoted keyword matches iff its text occurs somewhere in the line (a `*` inside quotes is literal),
-    character by character up to ASCII case, a space standing for any whitespace *)
+    character by character and case-sensitively ([pchar_exact]), a space standing for any whitespace *)
 Theorem C02_quoted_keyword : forall pat t,
   kw_is_match KExact pat t = true <->
-  exists pre m post, t = pre ++ m ++ post /\ seg_eq pat m = true.
+  exists pre m post, t = pre ++ m ++ post /\ seg_eq pchar_exact pat m = true.
 Proof. exact exact_keyword_spec. Qed.
 Print Assumptions C02_quoted_keyword.
 
-(** a bare keyword s0*s1*...: the segments occur in order, the gaps between them free of newlines *)
+(** a bare keyword s0*s1*...: the segments occur in order (up to ASCII case, [pchar_match]), the gaps
+    between them any text, line breaks included *)
 Theorem C02_wildcard_sound : forall s0 rest anch t caps,
-  find_match s0 rest anch t = Some caps ->
-  exists pre m t', t = pre ++ m ++ t' /\ seg_eq s0 m = true /\ segs_match rest anch t' caps.
-Proof. exact find_match_sound. Qed.
+  find_match pchar_match s0 rest anch t = Some caps ->
+  exists pre m t', t = pre ++ m ++ t' /\ seg_eq pchar_match s0 m = true /\ segs_match pchar_match rest anch t' caps.
+Proof. exact (find_match_sound pchar_match). Qed.
 Print Assumptions C02_wildcard_sound.
 
 Theorem C02_wildcard_complete : forall s0 rest anch t pre m t' caps,
-  t = pre ++ m ++ t' -> seg_eq s0 m = true -> segs_match rest anch t' caps ->
-  exists caps', find_match s0 rest anch t = Some caps'.
-Proof. exact find_match_complete. Qed.
+  t = pre ++ m ++ t' -> seg_eq pchar_match s0 m = true -> segs_match pchar_match rest anch t' caps ->
+  exists caps', find_match pchar_match s0 rest anch t = Some caps'.
+Proof. exact (find_match_complete pchar_match). Qed.
 Print Assumptions C02_wildcard_complete.
 
 (** literal characters match only themselves (up to ASCII case) *)
@@ -47,9 +50,15 @@ Theorem C02_literal_characters : forall p c, p <> 32 -> pchar_match p c = true -
 Proof. exact pchar_match_literal. Qed.
 Print Assumptions C02_literal_characters.
 
+(** ... and exactly themselves inside quotes *)
+Theorem C02_quoted_literal_characters : forall p c, p <> 32 -> pchar_exact p c = true -> p = c.
+Proof. exact pchar_exact_literal. Qed.
+Print Assumptions C02_quoted_literal_characters.
+
 Example C02_example :
   let f := FAnd [FKw KWild (lit "err*r"); FNot (FKw KExact (lit "a*b"))] in
-  map (fmatches f) [lit "an ERROR here"; lit "error a*b"; lit "err" ++ [10] ++ lit "or"; lit "fine"] = [true; false; false; false].
+  map (fmatches f) [lit "an ERROR here"; lit "error a*b"; lit "err" ++ [10] ++ lit "or"; lit "fine"; lit "error A*B"]
+  = [true; false; true; false; true].
 Proof. vm_compute. reflexivity. Qed.
 
 (** *** the filter syntax: every spelling of a filter is read back as that filter.
